@@ -446,6 +446,19 @@ def predicate(ctx, r):
     S0 = sp['spec']
     uL, nL = S0['uL'], S0['nL']
     H = S0['H']
+    if math.isfinite(uL) and abs(uL) >= 1e-9 and nL != 0 and math.isfinite(H) and abs(H) < 1e-12 \
+            and not r.get('has_mirror'):
+        # only the axial field point is defined: the Lagrange invariant is 0.  The spherical term does not depend on
+        # the chief ray at all (S_I = -A^2 y Delta(u/n)); the tree computes it as B i^2 h' with B ~ 1/H, h' ~ H and
+        # sets B = 0 when H = 0, so every term comes out 0 (finding F-C08-3, found by the referee pass over the
+        # theorems: the guard `inv != 0` of terms_eq_classical excludes an input the code accepts)
+        ctx.count('zero Lagrange invariant (axial field only)')
+        want = S0['TSC']
+        if all(math.isfinite(v) for v in want) and not arr_close(T['TSC'], want, 1e-7, 1e-9):
+            zero = all(v == 0 for v in T['TSC']) and any(abs(v) > 1e-12 for v in want)
+            ctx.fail('TSC equals the classical surface contribution -A^2 y Delta(u/n) / (2 n\'u\') (axial field only)',
+                     case, T['TSC'], want, finding_key='zero-invariant-kills-spherical' if zero else None)
+        return
     if not (math.isfinite(uL) and math.isfinite(H)) or abs(uL) < 1e-9 or abs(H) < 1e-12 or nL == 0:
         ctx.count('out-of-domain: H = 0 or zero power')
         return
@@ -581,6 +594,8 @@ def cases(ctx):
                 kw = dict(finite_object=True, ap_types=('objectNA',), field_types=('object_height',))
         d = lensgen.gen_lens(rng, allow_conic=False, allow_asphere=False, catalog=True,
                              allow_mirror=rng.random() < 0.3, stop=stop, immersed_image=rng.random() < 0.25, **kw)
+        if rng.random() < 0.04:
+            d['fields'] = [[0.0]]          # only the axial field point is defined (Lagrange invariant 0)
         nopt = len(d['surfaces']) - 2
         if nopt <= 3 or rng.random() < (0.15 if ctx.quick() else 0.04):
             ops = 'full'
